@@ -7,7 +7,7 @@
 (***************************************************************************)
 EXTENDS BigNat, Naturals, Sequences
 
-L(A, x, y) == A[5 * (y % 5) + (x % 5) + 1]
+Lane(A, x, y) == A[5 * (y % 5) + (x % 5) + 1]
 
 \* rho offsets: (x,y) walks (1,0) -> (y, 2x+3y); offset (t+1)(t+2)/2 mod 64
 RECURSIVE RhoWalk(_, _, _, _)
@@ -39,7 +39,7 @@ RCof(ir) == LET bits == [j \in 0..6 |-> rc(j + 7 * ir)]
 RC == [ir \in 0..23 |-> RCof(ir)]
 
 Theta(A) ==
-    LET C == Tup([x \in 1..5 |-> LET xx == x - 1 IN BitXor(BitXor(BitXor(L(A, xx, 0), L(A, xx, 1)), BitXor(L(A, xx, 2), L(A, xx, 3))), L(A, xx, 4))])
+    LET C == Tup([x \in 1..5 |-> LET xx == x - 1 IN BitXor(BitXor(BitXor(Lane(A, xx, 0), Lane(A, xx, 1)), BitXor(Lane(A, xx, 2), Lane(A, xx, 3))), Lane(A, xx, 4))])
         D == Tup([x \in 1..5 |-> BitXor(C[((x + 3) % 5) + 1], RotL(C[(x % 5) + 1], 1, 64))])
     IN Tup([i \in 1..25 |-> BitXor(A[i], D[((i - 1) % 5) + 1])])
 RhoPi(A) ==   \* B[y, 2x+3y] = rot(A[x,y], r[x,y])
@@ -53,7 +53,7 @@ RhoPi(A) ==   \* B[y, 2x+3y] = rot(A[x,y], r[x,y])
 Chi(B) == Tup([i \in 1..25 |->
              LET x == (i - 1) % 5
                  y == (i - 1) \div 5
-             IN BitXor(B[i], BitAnd(NotW(L(B, x + 1, y), 64), L(B, x + 2, y)))])
+             IN BitXor(B[i], BitAnd(NotW(Lane(B, x + 1, y), 64), Lane(B, x + 2, y)))])
 Iota(A, ir) == [A EXCEPT ![1] = BitXor(A[1], RC[ir])]
 Round(A, ir) == Iota(Chi(RhoPi(Theta(A))), ir)
 RECURSIVE Perm(_, _)
